@@ -96,7 +96,7 @@ class FlatPackH(Harness):
               ("block values in [0, num_blocks]", all_([(x >= 0) & (x <= n) for x in B.reshape(-1)]))]
         ob += self._block_ok(B)
         ob += [("num_blocks field == number of blocks", vs(st.num_blocks) == n),
-               ("step_count in [0, num_blocks]", (sc >= 0) & (sc <= n)),
+               ("step_count in [0, num_blocks-1] (every non-terminal state; = the domain of sym_state)", (sc >= 0) & (sc < n)),
                ("at most one block placed per step: #placed <= step_count", count(list(pl)) <= sc)]
         m, r = vs(st.action_mask), self.mask_rule(st)
         for b in range(n):
